@@ -78,7 +78,14 @@ const c12Batch = 512
 func c12Judge(c *Ctx, stream []byte, rk int, d Delivery, strict bool, what string) bool {
 	e := harness.EntryByName("tiff.ScanTiffHeader")
 	c.Dev.Budget = c.Dev.Seq + c08Budget(len(stream))
-	r := newReader(c.Dev, stream, Fault{}, d)
+	// the search takes a plain io.Reader: a device whose Seek method fails (a pipe) is a stream like
+	// any other
+	seekFail := c.L("dev:0:x").Chance(1, 3)
+	if seekFail {
+		what += " (device Seek fails)"
+		c.Inc("fault:seek-fails:configured")
+	}
+	r := newReader(c.Dev, stream, Fault{SeekFail: seekFail}, d)
 	res := invoke(c, e, &harness.Env{RK: rk}, r)
 	if c.PlanOnly {
 		return true
